@@ -191,3 +191,35 @@ CONCRETE["smpl_extract.alcohol.mdf:MdfStream.__init__"] = {
     "bound": "raw files of 0, 5, 2351..2353, 2357, 4703, 4704, 4711, 9056 bytes (whole sectors, stray tails, a cut-off last sector) x 3 cursor positions",
     "timeout_s": 5.0,
 }
+
+
+# ================================================================================================== C09: the three detection predicates
+# Each looks at the beginning of the stream (wherever the cursor is), answers whether the header parses, and puts the cursor back -
+# so detection never changes what the parsers read afterwards; `is_*` are functions of the stream content (what the dispatch proof assumes).
+def _mk_detect(key, call_text, extra_exc, tag):
+    @contract(f"construct:{tag}.parse_stream#header", abstract=True, assumed=True,
+              note=f"{tag}: parsing moves the cursor forward by some amount or fails with ConstructError" + (" / UnicodeDecodeError" if extra_exc else "")
+                   + "; whether it fails is a function of the content from the cursor on (here: from position 0)")
+    def _p(c):
+        c.param("stream", ROF)
+        c.returns(("drop",))
+        c.raises("ConstructError", f"not uf_bool('{tag}_header_parses', len(stream.content))")
+        if extra_exc:
+            c.raises("UnicodeDecodeError", f"not uf_bool('{tag}_header_parses', len(stream.content))")
+        c.ensures(f"uf_bool('{tag}_header_parses', len(stream.content)) and stream.cur >= old(stream.cur)")
+        c.modifies("stream.cur")
+
+    @contract(key, props=["C09"])
+    def _d(c):
+        c.param("stream", ROF)
+        c.abstract_calls = {call_text: f"construct:{tag}.parse_stream#header"}
+        c.requires("0 <= stream.cur and stream.cur <= len(stream.content)")
+        c.ensures("stream.cur == old(stream.cur)", "the-cursor-is-put-back")
+        c.ensures(f"result == uf_bool('{tag}_header_parses', len(stream.content))", "answers-whether-the-header-at-position-0-parses")
+        c.modifies("stream.cur")
+    return _d
+
+
+_mk_detect("smpl_extract.alcohol.mdf:is_mdf_image", "MdfSectorHeaderConstruct.parse_stream", False, "mdf")
+_mk_detect("smpl_extract.alcohol.mdx:is_mdx_image", "MdxHeaderConstruct.parse_stream", False, "mdx")
+_mk_detect("smpl_extract.roland.s7xx.image:is_roland_s7xx_image", "IdAreaAdapterParser.parse_stream", True, "roland_id")
